@@ -7,6 +7,8 @@ func init() {
 		Run: func(c *Ctx) {
 			c.Rule("C14.R1", "open/close pairing, chain naming, -X ownership, full sync completeness", 10)
 			ruleHostPorts(c, "C14.R1")
+			c.Rule("C14.R6", "failure clean-up closes only own sockets; port file removed only after a successful clean", 2)
+			ruleHostPortOwnership(c, "C14.R6")
 			c.Rule("C14.R2", "port mapping pairing in the request handler", 3)
 			ruleRequestPortMapping(c, "C14.R2")
 			c.Rule("C14.R4", "podPortMap only under the handler mutex", 2)
